@@ -450,6 +450,31 @@ def shrink(work, kind, body, holds, rounds):
     return cur
 
 
+def stream_corpus(run, work, holds):
+    txt, sites, keys = C.corpus_program()
+    path = os.path.join(work, "corpus.cpp")
+    open(path, "w").write(txt)
+    facts, stats = C.dump_facts(path, sites)
+    obs, dt = C.compile_and_run(work, "corpus.cpp", len(keys))
+    bad = C.contradictions(facts, sites, obs, holds)
+    for (fn, inp), tr in obs.items():
+        for sid, what, val in (tr or []):
+            for f in facts.get(sid, []):
+                run.count("corpus", None, nontrivial=None if trivial_fact(f) else (sid, f, inp, val), bucket=keys[fn][0])
+    seen = set()
+    for sid, f, fn, inp, val in bad:
+        key, decl = keys[fn]
+        if (key, decl) in seen:
+            continue
+        seen.add((key, decl))
+        run.stream("corpus")["disagreements"] += 1
+        prog = "#include <vector>\n#include <set>\n#include <map>\n#include <utility>\nvoid sink(int, unsigned long);\nvoid f(int a) {\n  %s\n  sink(1, c.size());\n}\n" % decl
+        run.violation(key, "`%s` : cppcheck reports %s %s value %d but f(%d) has size %s" % (decl, {"K": "Known", "I": "Impossible"}[f[0]],
+                      "container-size" if f[3] == "container" else "size()", f[2], inp, val),
+                      {"program": prog, "input_a": inp, "fact": {"kind": f[0], "bound": f[1], "value": f[2], "token": f[3]}, "observed": val,
+                       "how": "cppcheck --dump --library=std on `program`: values of `c` in c.size(); compile with a main defining sink and calling f(input_a)"})
+
+
 def stream_programs(run, model, work, holds, nfun, chunk, max_shrinks):
     rng = run.rng
     total_sites = 0
@@ -603,6 +628,7 @@ def check(run, replay):
             unsound_rows(run, model, rows, rfacts, robs, rsites, holds, table, str(info["actions"].index("PUSH")) if "PUSH" in info["actions"] else "-")
         except C.CompileError as e:
             run.violation("rows:compile", "the row programs do not compile: " + str(e)[-300:], {"broken": "row templates", "detail": str(e)[-3000:]}, found_input=False)
+        stream_corpus(run, work, holds)
         nfun = 120 if quick else 4000
         try:
             stream_programs(run, model, work, holds, nfun, 60 if quick else 200, [3 if quick else 40])
